@@ -5,6 +5,7 @@ import (
 	"encoding/hex"
 	"fmt"
 	"hash"
+	"os"
 	"testing"
 	"time"
 )
@@ -47,6 +48,7 @@ type Result struct {
 	MinSteps     int              `json:"min_steps,omitempty"`
 	Hint         map[string]int64 `json:"hint,omitempty"`
 	EventLog     []string         `json:"-"`
+	LogDump      []string         `json:"event_log,omitempty"` // only with VERIF_KEEPLOG
 }
 
 // Run is the context handed to an engine for one execution.
@@ -139,6 +141,9 @@ func (r *Run) finish() {
 	r.Res.AbstractHash = hex.EncodeToString(r.absH.Sum(nil)[:8])
 	r.Res.Events = int(r.seq)
 	r.Res.EventLog = r.lines
+	if os.Getenv("VERIF_KEEPLOG") != "" {
+		r.Res.LogDump = r.lines
+	}
 }
 
 // StepRand returns the choice stream owned by a step.
